@@ -89,7 +89,9 @@ func (rr *RdbReplay) Replay(e *rdb.BinEntry) (err error) {
 		if err != nil {
 			return err
 		}
-		if e.ExpireAt != 0 {
+		// a split value gets its expiry with the last part, else a key that is already
+		// expired vanishes between two parts and the rest of it is created without expiry
+		if e.ExpireAt != 0 && e.LastBin() {
 			r, err := common.Int64(rr.Client.Do("pexpire", e.Key, ttlms))
 			if err != nil && r != 1 {
 				return fmt.Errorf("expire key error : key(%s), error(%w)", e.Key, err)
